@@ -305,6 +305,7 @@ func (p *parser) checkAlias(mAlias ast.Alias, typeSensitive bool, start int, cac
 						cached_arg.Errors = append(cached_arg.Errors, err)
 					},
 					module:               p.module,
+					predefinedModules:    p.predefinedModules,
 					genericDepth:         p.genericDepth,
 					genericDepthExceeded: p.genericDepthExceeded,
 					aliases:              p.aliases,
@@ -481,6 +482,7 @@ func (p *parser) InstantiateGenericFunction(genericFunc *ast.FuncDecl, genericTy
 		errorHandler:          errorCollector.GetHandler(),
 		module:                genericFunc.Mod,
 		genericModule:         genericModule,
+		predefinedModules:     p.predefinedModules,
 		genericDepth:          p.genericDepth + 1,
 		genericDepthExceeded:  p.genericDepthExceeded,
 		aliases:               context.Aliases,
